@@ -1226,7 +1226,11 @@ class Interp:
                 return a
         mn1, mn2 = maybe_none(v1), maybe_none(v2)
         mn = True if (mn1 or mn2) else (False if (mn1 is False and mn2 is False) else None)
-        return Unknown(f"ite({key(v1)},{key(v2)})", taint_of(v1) | taint_of(v2), mn)
+        out_ = Unknown(f"ite({key(v1)},{key(v2)})", taint_of(v1) | taint_of(v2), mn)
+        for a, b in ((v1, v2), (v2, v1)):
+            if self._is_pattern_tuple(a) and (isinstance(b, NoneV) or (isinstance(b, TupleV) and not b.items) or self._is_pattern_tuple(b)):
+                out_._pattern_tuple = True  # type: ignore[attr-defined]  # (`() if patterns is None else patterns`: still the pattern tuple)
+        return out_
 
     # ------------------------------------------------------------------ loops
     def iteration_plan(self, fr: Frame, src: V, node: ast.AST) -> list:
@@ -2837,8 +2841,18 @@ class Interp:
             if any("GAP" in self.value_taint(v) for v in vals_):
                 return None
             payload = some[0] if len(some) == 1 else (vals_[0] if not some else None)
-            return Opaque(ci.name, t, f"{ci.name}({key(first)})", payload, exact=True)
+            # exact: what depends on the external options among the attributes read IS the external pattern tuple (possibly
+            # defaulted / copied / concatenated), not merely a value the interpreter could not separate from it
+            exact = all("EXT" not in self.value_taint(v) or self._is_pattern_tuple(v) for v in some)
+            return Opaque(ci.name, t, f"{ci.name}({key(first)})", payload, exact=exact)
         return None
+
+    def _is_pattern_tuple(self, v: V) -> bool:
+        if isinstance(v, Unknown):
+            return v.patterns or getattr(v, "_pattern_tuple", False)
+        if isinstance(v, AltV):
+            return all(self._is_pattern_tuple(x) or self.patterns_empty(x) == TRUE for _g, x in v.alts) and any(self._is_pattern_tuple(x) for _g, x in v.alts)
+        return False
 
     def _freeze(self, v: V) -> V:
         if isinstance(v, Coll):
